@@ -30,7 +30,8 @@ func LimitCryptionHandler(limitBytes int64, key []byte) func(http.Handler) http.
 			cw := newCryptionResponseWriter(w)
 			defer cw.flush(r.Context(), key)
 
-			if r.ContentLength <= 0 {
+			// ContentLength == 0: no body; -1: unknown length (chunked), decrypted below
+			if r.ContentLength == 0 {
 				next.ServeHTTP(cw, r)
 				return
 			}
@@ -56,10 +57,23 @@ func decryptBody(limitBytes int64, key []byte, r *http.Request) error {
 		content = make([]byte, r.ContentLength)
 		_, err = io.ReadFull(r.Body, content)
 	} else {
-		content, err = io.ReadAll(io.LimitReader(r.Body, maxBytes))
+		// unknown length: read it all, but never more than the limit allows
+		reader := io.Reader(r.Body)
+		if limitBytes > 0 {
+			reader = io.LimitReader(r.Body, limitBytes+1)
+		}
+		content, err = io.ReadAll(reader)
+		if err == nil && limitBytes > 0 && int64(len(content)) > limitBytes {
+			err = errContentLengthExceeded
+		}
 	}
 	if err != nil {
 		return err
+	}
+
+	if len(content) == 0 {
+		// an empty body of unknown length: nothing to decrypt
+		return nil
 	}
 
 	content, err = base64.StdEncoding.DecodeString(string(content))
